@@ -27,3 +27,19 @@ Theorem C02_no_data_means_error : forall G fschema W op vars P max fuel oc,
   gateway G fschema W op vars P max fuel = Ok oc -> r_data (oc_response oc) = None -> r_errors (oc_response oc) <> [].
 Proof. exact gateway_no_data_means_error. Qed.
 Print Assumptions C02_no_data_means_error.
+
+(* "the null propagates ... and every value that differs is accounted for by an entry in errors", the propagation half, for
+   EVERY schema, selection, merged tree, path and fuel: whenever the null-propagation pass tells its caller to null the
+   enclosing position it has reported an error; and at the level of the whole gateway model, a response whose data was nulled
+   by propagation is `null` and carries a null-propagation error (Proofs/BubbleAccount.v). *)
+From V Require Import Model.Shape Proofs.BubbleAccount.
+Theorem C02_propagated_null_is_reported : forall fuel c cur ss v path v' ss' errs,
+  bubble fuel c cur ss v path = BOk v' ss' errs true -> errs <> [].
+Proof. exact bubble_up_reported. Qed.
+Print Assumptions C02_propagated_null_is_reported.
+Theorem C02_nulled_response_names_the_propagation : forall G fschema W op vars P max fuel oc merged v ss' berrs,
+  gateway G fschema W op vars P max fuel = Ok oc -> oc_merged oc = Some merged ->
+  bubble fuel fschema None (oc_op oc) merged [] = BOk v ss' berrs true ->
+  r_data (oc_response oc) = Some JNull /\ exists e, In e (r_errors (oc_response oc)) /\ ge_kind e = ENullBubble.
+Proof. exact gateway_propagated_null_reported. Qed.
+Print Assumptions C02_nulled_response_names_the_propagation.
